@@ -38,12 +38,36 @@ def real_sharers(target):
     return out
 
 
+class _ObjMap:
+    """object -> value, keyed by identity and validated by a weak reference (Vectors are unhashable)"""
+
+    def __init__(self):
+        self.d = {}
+
+    def get(self, obj, default=None):
+        ent = self.d.get(id(obj))
+        if ent is not None and ent[0]() is obj:
+            return ent[1]
+        return default
+
+    def __setitem__(self, obj, val):
+        self.d[id(obj)] = (weakref.ref(obj), val)
+
+    def __contains__(self, obj):
+        return self.get(obj) is not None
+
+    def pop(self, obj, default=None):
+        v = self.get(obj, default)
+        self.d.pop(id(obj), None)
+        return v
+
+
 class C15(Oracle):
     prop = "C15"
 
     def start(self, env):
         self.classes = {}     # tag -> [weakref to vectors built over that caller tuple, not yet written]
-        self.tag_of = {}      # eid -> tag
+        self.tag_of = _ObjMap()      # object -> tag (several world entries may hold one object)
 
     def _partners(self, tag, target):
         out = []
@@ -64,20 +88,37 @@ class C15(Oracle):
             if e is not None and isinstance(w.inputs.get(rec["inp"]), tuple):
                 tag = rec["inp"]
                 self.classes.setdefault(tag, []).append(weakref.ref(e.obj))
-                self.tag_of[e.eid] = tag
+                self.tag_of[e.obj] = tag
                 if len(self._partners(tag, e.obj)) >= 1:
                     env.probe("c15_sharing_class_formed")
+        if op == "vec_of_cols" and out["st"] == "ok" and out["res"] is not None:
+            # the program took a vector's storage tuple (cols()) and built a second vector over it:
+            # the two are built over one caller-supplied tuple
+            src = w.handles.get(rec["h"])
+            res = w.entries.get(out["res"])
+            if src is not None and res is not None:
+                tag = self.tag_of.get(src.obj) or ("cols:%d" % src.eid)
+                if src.obj not in self.tag_of:
+                    self.tag_of[src.obj] = tag
+                    self.classes.setdefault(tag, []).append(weakref.ref(src.obj))
+                self.classes.setdefault(tag, []).append(weakref.ref(res.obj))
+                self.tag_of[res.obj] = tag
+                env.probe("c15_sharing_class_formed")
         if op == "deepcopy" and out["st"] == "ok" and out["res"] is not None:
             # copy.deepcopy keeps a tuple of immutables as the very same object, so the deep
             # copy of a vector built over a caller tuple is itself built over that tuple
             src = w.handles.get(rec["h"])
             res = w.entries.get(out["res"])
-            if src is not None and res is not None and self.tag_of.get(src.eid) and not res.is_table:
+            if src is not None and res is not None and not res.is_table:
                 st = _storage(res.obj)
                 if st is not _MISSING and st is _storage(src.obj):
-                    tag = self.tag_of[src.eid]
+                    tag = self.tag_of.get(src.obj)
+                    if tag is None:
+                        tag = "deep:%d" % src.eid
+                        self.tag_of[src.obj] = tag
+                        self.classes.setdefault(tag, []).append(weakref.ref(src.obj))
                     self.classes.setdefault(tag, []).append(weakref.ref(res.obj))
-                    self.tag_of[res.eid] = tag
+                    self.tag_of[res.obj] = tag
                     env.probe("c15_deepcopy_joins_class")
         if out["kind"] != "write" or op not in ("writeback", "set"):
             return viols
@@ -85,7 +126,7 @@ class C15(Oracle):
         if e is None:
             return viols
         target = e.obj
-        tag = self.tag_of.get(e.eid)
+        tag = self.tag_of.get(e.obj)
         n = len(target)
         env.probe("c15_writes")
         if out["st"] == "exc" and out["exc"] == "AliasError":
@@ -134,10 +175,10 @@ class C15(Oracle):
                 if partners:
                     env.probe("c15_sharer_written")
                 self.classes[tag] = [r for r in self.classes.get(tag, []) if r() is not None and r() is not target]
-                self.tag_of.pop(e.eid, None)
+                self.tag_of.pop(e.obj, None)
                 # leak: no other member of the class may have observed the write
                 for other in w.live_entries():
-                    if other.eid != e.eid and self.tag_of.get(other.eid) == tag and other.obj is not target:
+                    if other.eid != e.eid and self.tag_of.get(other.obj) == tag and other.obj is not target:
                         if env.prev.get(other.eid) != env.cur.get(other.eid):
                             viols.append(Violation("C15", "C15/leak",
                                                    "write through %s was observed by %s, built over the same caller tuple" % (
